@@ -537,7 +537,34 @@ def checker_pairs(seed: int, n: int):
                 if w and canon.diff(canon.canon(a), canon.canon(b)) is not None:
                     out.append((a, b, w))
                     break
+    # directed: every optional attribute of every class absent on one side (both argument orders are judged later)
+    from vf import meta as _meta
+    for cls_, rows in _meta.META.items():
+        if cls_ in ("Key", "ExternalReference", "ModelReference", "SpecificAssetId"):
+            continue
+        for attr_, kind_ in rows:
+            if kind_[0] != "o" or attr_ == "id_short":
+                continue
+            for t in range(25):
+                tag = f"C20opt:{seed}:{cls_}:{attr_}:{t}"
+                a, b = make_obj(tag), make_obj(tag)
+                if has_unordered_list_or_nan(a):
+                    continue
+                hit = [o for o, c in sid_nodes(b) if c == cls_ and getattr(o, attr_, None) is not None]
+                done = False
+                for o in hit:
+                    try:
+                        setattr(o, attr_, None)
+                        if getattr(o, attr_) is None and canon.diff(canon.canon(a), canon.canon(b)) is not None:
+                            out.append((a, b, (cls_, attr_ + "=None")))
+                            done = True
+                            break
+                    except Exception:
+                        continue
+                if done:
+                    break
     i = 0
+    n = n + len(out)
     while len(out) < n and i < 4 * n:
         i += 1
         tag = f"C20pair:{seed}:{i}"
